@@ -37,11 +37,12 @@ def nibtext(src: Term, nib: int) -> Term:
 
 
 def iso_time(x: Term) -> Term:
-    mins = ("app", "floordiv", x, c(60))
+    from .lib import arith   # the same arithmetic normaliser the interpreter uses (digit extraction is canonical)
+    mins = arith("floordiv", x, c(60))
     return ("seq", "s", (("txt", ("app", ".isoformat", ("app", "datetime.time",
-            ("kw", "hour", ("app", "floordiv", mins, c(60))),
-            ("kw", "minute", ("app", "mod", mins, c(60))),
-            ("kw", "second", ("app", "mod", x, c(60)))))),))
+            ("kw", "hour", arith("floordiv", mins, c(60))),
+            ("kw", "minute", arith("mod", mins, c(60))),
+            ("kw", "second", arith("mod", x, c(60)))))),))
 
 
 def enum_table(prog: Program, enum_key: str, attr: str) -> Tuple[Tuple[Term, Term], ...]:
